@@ -59,7 +59,10 @@ Why(e) == CASE e.ev = "Rebuild" -> RebuildWhy(e) [] e.ev = "TRead" -> ReadWhy(e)
 Idle == /\ rpc = "trace" /\ ropts = 0 /\ rtodo = {} /\ rextr = {} /\ rskip = {} /\ rlost = {} /\ rtarget = 0 /\ rsum = 0 /\ rres = ""
 TInit == tl = 1 /\ vr = 0 /\ vskip = FALSE /\ Idle
 TNext == /\ tl <= Len(Rec) /\ tl' = tl + 1 /\ UNCHANGED rvars
-         /\ IF Ev.ev = "Reset" THEN vr' = tl /\ vskip' = FALSE
+         /\ IF Ev.ev = "Reset"
+            THEN /\ vr' = tl
+                 \* the source archive must hold what the driver gave to the builder
+                 /\ IF Ev.srcbad = <<>> THEN vskip' = FALSE ELSE Bad("source-not-as-built") /\ vskip' = TRUE
             ELSE IF vskip THEN UNCHANGED <<vr, vskip>>
             ELSE /\ UNCHANGED vr
                  /\ IF Why(Ev) = "" THEN UNCHANGED vskip
